@@ -240,6 +240,7 @@ class Interp:
         self.state: State = State()
         self.ctx: Ctx = Ctx()
         self.no_inline: set[str] = set()
+        self.method_hooks: dict = {}  # (role, method name) -> handler(interp, elem, args, kwargs, node)
         self.path_count = 0
         self.stats = {"paths": 0, "functions": set(), "unresolved_calls": 0, "resolved_calls": 0, "loops": 0}
 
@@ -641,7 +642,7 @@ class Interp:
                 if len(o.segs) == 1 and o.segs[0][0] == "each":
                     _, b, fam, g, val = o.segs[0]
                     if g == PTRUE and isinstance(val, ElemV) and val.var == b and fam[0] == "members":
-                        return ElemV(fam[1], "set", fam=val.role, cls=val.cls)
+                        return ElemV(fam[1], "set", fam=val.role, cls=val.fam if isinstance(val.fam, str) else val.cls)
                 return ElemV(self.list_desc(o), "set", fam="plain")
         return None
 
